@@ -113,7 +113,7 @@ func c20Pk(s string) string {
 		i = j
 	}
 	if bestLen >= 64 {
-		return "(" + c20Pk1(s[:bestAt]) + " ++ rp " + strconv.Itoa(int(s[bestAt])) + "%N " + strconv.Itoa(bestLen) +
+		return "(" + c20Pk(s[:bestAt]) + " ++ rp " + strconv.Itoa(int(s[bestAt])) + "%N " + strconv.Itoa(bestLen) +
 			"%Z ++ " + c20Pk(s[bestAt+bestLen:]) + ")"
 	}
 	return c20Pk1(s)
@@ -365,6 +365,175 @@ func c20EncFile(t *testing.T, r *vfRand, n int, ts0 int64, pad func(i int) int) 
 		lines = append(lines, c20Line{text: c20EncLine(t, r, ts, vfPick(r, zones), pad(i)), ts: ts})
 	}
 	return lines
+}
+
+// ---- round 7: the POSITION of the T member inside the line
+
+// c20TKeys: keys of string members that legacy and foreign-but-valid layouts
+// put in front of T.
+var c20TKeys = []string{"IP", "QH", "QT", "QC", "CP", "Answer", "OrigAnswer", "Upstream", "CID", "ECS", "note", "x-trace"}
+
+// c20TOffsetLine writes a one-line JSON object in which the marker `"T":"`
+// begins at byte tOff exactly (1 = T is the first member), behind nProps
+// string members of varying length (fewer if they do not fit), followed by a
+// few more members.  The line has tOff + ~60 bytes.
+func c20TOffsetLine(t *testing.T, r *vfRand, idx int, ts int64, tOff, nProps int) c20Line {
+	room := tOff - 1
+	var keys []string
+	for len(keys) < nProps {
+		var fit []string
+		for _, k := range c20TKeys {
+			dup := false
+			for _, x := range keys {
+				dup = dup || x == k
+			}
+			if !dup && room-(len(k)+6) >= 0 {
+				fit = append(fit, k)
+			}
+		}
+		if len(fit) == 0 {
+			break
+		}
+		k := vfPick(r, fit)
+		keys = append(keys, k)
+		room -= len(k) + 6
+	}
+	if len(keys) == 0 && room > 0 {
+		t.Fatalf("c20TOffsetLine: offset %d cannot be reached", tOff)
+	}
+	// the value lengths: random cuts of the room
+	lens := make([]int, len(keys))
+	for i := range lens {
+		if i == len(lens)-1 {
+			lens[i] = room
+		} else {
+			lens[i] = r.Intn(room + 1)
+			if r.Bool() {
+				lens[i] = r.Intn(room/len(keys) + 1)
+			}
+		}
+		room -= lens[i]
+	}
+	vfShuffle(r, lens)
+	var b strings.Builder
+	b.WriteByte('{')
+	for i, k := range keys {
+		// a short drawn head (sometimes an escaped decoy stamp: valid JSON, the raw
+		// marker does not occur in it), then a run of one base64 character
+		head := vfPick(r, []string{"", "127.0.0.1", "dGVzdA", "host-7.example.org", `\"T\":\"2001-01-01T00:00:00Z\"`, `T\":\"`, "2001-01-01T00:00:00Z"})
+		if len(head) > lens[i] {
+			head = ""
+		}
+		b.WriteString(`"` + k + `":"` + head + strings.Repeat(string("AQgw"[i%4]), lens[i]-len(head)) + `",`)
+	}
+	if b.Len() != tOff {
+		t.Fatalf("c20TOffsetLine: marker at %d, wanted %d", b.Len(), tOff)
+	}
+	b.WriteString(`"T":"` + time.Unix(0, ts).UTC().Format(time.RFC3339Nano) + `"`)
+	b.WriteString(`,"i":` + strconv.Itoa(idx) + `,"Elapsed":` + strconv.Itoa(r.Intn(100000)) + `}`)
+	line := b.String()
+	// what the property covers: a valid one-line JSON object whose top-level
+	// member T is a string holding an RFC 3339 time, and in which the first raw
+	// occurrence of the marker is that member (always so when the members in
+	// front of it are strings, numbers or booleans: JSON escapes every quote
+	// inside a string)
+	var m map[string]any
+	if err := json.Unmarshal([]byte(line), &m); err != nil {
+		t.Fatalf("c20TOffsetLine: not valid JSON: %v", err)
+	}
+	tv, _ := m["T"].(string)
+	tm, err := time.Parse(time.RFC3339Nano, tv)
+	if err != nil || tm.UnixNano() != ts || strings.Index(line, `"T":"`) != tOff || strings.ContainsAny(line, "\n\r") || len(line) >= maxEntrySize {
+		t.Fatalf("c20TOffsetLine: line outside the covered set (T %q, marker at %d, len %d)", tv, strings.Index(line, `"T":"`), len(line))
+	}
+	return c20Line{text: line, ts: ts}
+}
+
+// c20TOffsets: where the marker is put.
+var c20TOffsets = []int{1, 17, 250, 256, 260, 480, 507, 511, 512, 513, 600, 1024, 8192, maxEntrySize - 70}
+
+// c20TOffsetFile draws a file of lines with T at the given offsets (in this
+// order, oldest first), stamps strictly increasing.
+func c20TOffsetFile(t *testing.T, r *vfRand, ts0 int64, offs []int) (lines []c20Line) {
+	ts := ts0
+	for i, off := range offs {
+		ts += vfPick(r, []int64{1, 1000, 1_000_000, r.Range(1, 2_000_000_000)})
+		lines = append(lines, c20TOffsetLine(t, r, i, ts, off, 1+r.Intn(6)))
+	}
+	return lines
+}
+
+// c20TOffsetCases queues the constructed cases of the dimension and n drawn
+// ones.  All of them are JUDGED: the seek contract and the stamp read.
+func c20TOffsetCases(t *testing.T, out *vfOut, dir string, rnd *vfRand, sched *c20Sched, n int) {
+	const ts0 = int64(1700000000000000000)
+	cl := []string{"stamp-field-offset"}
+	// every offset once, shallow to deep and deep to shallow
+	sched.add(func() {
+		r := vfNewRand(701)
+		c20BytesCase(t, out, r, dir, "t-offset-ladder", c20TOffsetFile(t, r, ts0, c20TOffsets), true, 100, append(cl, "stamp-field-beyond-512"))
+	})
+	sched.add(func() {
+		r := vfNewRand(702)
+		rev := append([]int(nil), c20TOffsets[:len(c20TOffsets)-2]...)
+		for i, j := 0, len(rev)-1; i < j; i, j = i+1, j-1 {
+			rev[i], rev[j] = rev[j], rev[i]
+		}
+		c20BytesCase(t, out, r, dir, "t-offset-ladder-down", c20TOffsetFile(t, r, ts0, rev), true, 100, append(cl, "stamp-field-beyond-512"))
+	})
+	// records of the current encoder (T first) around ONE record with T deep in
+	// the line, in the middle of the file: every seek whose bisection probes it
+	// depends on its stamp
+	sched.add(func() {
+		r := vfNewRand(703)
+		lines := c20EncFile(t, r, 6, ts0, func(int) int { return 0 })
+		last := lines[len(lines)-1].ts
+		lines = append(lines, c20TOffsetLine(t, r, 6, last+1000, 600, 3))
+		more := c20EncFile(t, r, 6, last+2000, func(int) int { return 0 })
+		lines = append(lines, more...)
+		c20BytesCase(t, out, r, dir, "t-offset-one-deep-record", lines, true, 100, append(cl, "stamp-field-beyond-512"))
+	})
+	// the legacy order (IP first) with a long base64 answer in front of T
+	sched.add(func() {
+		r := vfNewRand(704)
+		var lines []c20Line
+		for i := 0; i < 7; i++ {
+			ts := ts0 + int64(i+1)*1_000_000
+			ans := strings.Repeat("A", []int{0, 90, 470, 471, 472, 700, 3000}[i])
+			pre := `{"IP":"192.168.1.` + strconv.Itoa(i) + `","QH":"h` + strconv.Itoa(i) + `.example","QT":"A","QC":"IN","Answer":"` + ans + `",`
+			lines = append(lines, c20Line{text: pre + `"T":"` + time.Unix(0, ts).UTC().Format(time.RFC3339Nano) + `","Elapsed":` + strconv.Itoa(100+i) + `}`, ts: ts})
+		}
+		c20BytesCase(t, out, r, dir, "t-offset-legacy-answer-first", lines, true, 100, append(cl, "stamp-field-beyond-512", "legacy-layout"))
+	})
+	for i := 0; i < n; i++ {
+		r := rnd.Fork(uint64(4200000 + i))
+		sched.add(func() {
+			k := int(r.Range(2, 9))
+			offs := make([]int, k)
+			deep := false
+			for j := range offs {
+				switch r.Intn(4) {
+				case 0:
+					offs[j] = vfPick(r, c20TOffsets[:len(c20TOffsets)-1])
+				case 1:
+					offs[j] = int(r.Range(480, 540))
+				case 2:
+					offs[j] = vfPick(r, []int{1, 1, 17, int(r.Range(20, 300))})
+				default:
+					offs[j] = int(r.Range(1, 6000))
+				}
+				if offs[j] > 1 && offs[j] < 9 {
+					offs[j] = 9 // room for the shortest member in front of T
+				}
+				deep = deep || offs[j] > 512
+			}
+			c := cl
+			if deep {
+				c = append(c, "stamp-field-beyond-512")
+			}
+			c20BytesCase(t, out, r, dir, "t-offset-random", c20TOffsetFile(t, r, ts0+r.Range(0, 1_000_000), offs), true, 40, c)
+		})
+	}
 }
 
 // c20BytesCases emits the byte-level cases of a run.
